@@ -297,7 +297,10 @@ def finish(tier, sums, label, ev, vd):
             'MergeChains', 'MergeChainsAll', 'RemoveInter', 'AddOrReplace'}
     if need - set(by_event) and not vd.violations:          # (a rejected history ends at the rejected event)
         raise tlc.MachineryError('real histories: no accepted event of kind %s' % sorted(need - set(by_event)))
-    ev.extra['shared_objects_observed'] = sharing_table()
+    try:
+        ev.extra['shared_objects_observed'] = sharing_table()
+    except Exception as exc:       # a measurement on fixed objects: a broken implementation may not even get that far
+        ev.extra['shared_objects_observed'] = {'not measured': repr(exc)}
 
 
 def replay(scenario):
